@@ -2,6 +2,7 @@ package c11
 
 import (
 	"fmt"
+	"math"
 	"strings"
 	"testing"
 	"time"
@@ -77,7 +78,7 @@ func newSession(cols, rows int) (*session, error) {
 
 // build makes the window chain and computes, independently, its absolute
 // origin and clip rectangle from the windows' public fields.
-func build(vx *vaxis.Vaxis, sc rect, chain []Win) (vaxis.Window, rect, int, int) {
+func build(vx *vaxis.Vaxis, sc rect, chain []Win) (vaxis.Window, rect, int, int, int, int) {
 	win := vx.Window()
 	clip := sc
 	oc, or := 0, 0
@@ -94,10 +95,12 @@ func build(vx *vaxis.Vaxis, sc rect, chain []Win) (vaxis.Window, rect, int, int)
 			next = win.New(w.Col, w.Row, w.W, w.H)
 			// New: a negative size, or one that reaches beyond the parent,
 			// means "the rest of the parent"
-			if w.W < 0 || w.Col+w.W > pw {
+			// (written without the sum offset+size, which overflows for
+			// sizes near the largest int)
+			if w.W < 0 || w.W > pw-w.Col {
 				rw = pw - w.Col
 			}
-			if w.H < 0 || w.Row+w.H > ph {
+			if w.H < 0 || w.H > ph-w.Row {
 				rh = ph - w.Row
 			}
 		}
@@ -107,7 +110,7 @@ func build(vx *vaxis.Vaxis, sc rect, chain []Win) (vaxis.Window, rect, int, int)
 		pw, ph = rw, rh
 		win = next
 	}
-	return win, clip, oc, or
+	return win, clip, oc, or, pw, ph
 }
 
 func isSentinel(c refterm.Cell) bool {
@@ -126,8 +129,12 @@ func (x *session) run(c Case) string {
 	vx.Window().Fill(sentinel)
 	vx.Refresh()
 	sc := rect{0, 0, x.cols, x.rows}
-	win, clip, oc, or := build(vx, sc, c.Chain)
+	win, clip, oc, or, mw, mh := build(vx, sc, c.Chain)
 	ww, wh := win.Size()
+	if n := len(c.Chain); n > 0 && !c.Chain[n-1].Literal && (ww != mw || wh != mh) {
+		l := c.Chain[n-1]
+		return fmt.Sprintf("Window.New(%d, %d, %d, %d) gives a window of %dx%d; a negative size, or one that reaches beyond the parent, means the rest of the parent: %dx%d", l.Col, l.Row, l.W, l.H, ww, wh, mw, mh)
+	}
 	text := strings.Join(c.Call.Text, "")
 	seg := vaxis.Segment{Text: text, Style: opStyle}
 	cell := vaxis.Cell{Character: vaxis.Character{Grapheme: "x", Width: 1}, Style: opStyle}
@@ -522,6 +529,16 @@ func TestChains(t *testing.T) {
 		for i := 0; i < depth; i++ {
 			w := Win{Col: rapid.IntRange(-2, 6).Draw(rt, "col"), Row: rapid.IntRange(-2, 5).Draw(rt, "row"),
 				W: rapid.SampledFrom([]int{-1, 0, 1, 2, 3, 4, 6, 9}).Draw(rt, "w"), H: rapid.SampledFrom([]int{-1, 0, 1, 2, 3, 4, 7}).Draw(rt, "h"), Literal: rapid.IntRange(0, 3).Draw(rt, "lit") == 0}
+			if rapid.IntRange(0, 5).Draw(rt, "huge") == 2 {
+				// "oversized" up to the largest int: offset+size overflows
+				harness.R.Label(sub, "window size near the largest int")
+				if rapid.Bool().Draw(rt, "huge-w") {
+					w.W = math.MaxInt - rapid.IntRange(0, 2).Draw(rt, "dw")
+				} else {
+					w.H = math.MaxInt - rapid.IntRange(0, 2).Draw(rt, "dh")
+				}
+				w.Literal = false
+			}
 			if i > 0 && rapid.IntRange(0, 2).Draw(rt, "cancel") == 1 {
 				// a child that reaches back over its parent's origin: its
 				// own rectangle can cover cells (even the whole screen) which
